@@ -24,8 +24,9 @@ def close(a, b, rtol=1e-9):
 def build_system(c, usys, vol):
     w, h, d = c["shape"]
     n = w * h * d
-    net = RDNetwork(species=[Species("A", D=1.0), Species("B", D=0.5)], reactions=[Reaction("A -> B", kf=0.1)],
-                    environments=["e0", "e1"])
+    # diffusion coefficients differ between the environments (one of them zero on one side): the interface terms matter
+    net = RDNetwork(species=[Species("A", D={"e0": 1.0, "e1": 0.25}), Species("B", D={"e0": 0.5, "e1": 0.0}), ],
+                    reactions=[Reaction("A -> B", kf={"e0": 0.1, "e1": 0.3})], environments=["e0", "e1"])
     space = RDGridSpace(w=w, h=h, d=d, cell_env=list(c["env"]), cell_vol=vol, units_system=usys)
     state = [float(11 + k) for k in range(n)] + [float(2 * k + 1) for k in range(n)]
     chem = [int((k + 1) % 3 == 0) for k in range(n)] + [0] * n
@@ -142,7 +143,7 @@ def identity_simulation(rep, rng, n):
 
 def run(tier, selftest=False, only=None):
     rep = Report(PROP, tier)
-    rep.rule = ("model: every index map over -1..3 of grids 2x2x1, 3x1x1, 1x2x2 (thorough: 2x2x1, 4x1x1, 3x2x1, 2x2x2) x every "
+    rep.rule = ("model: every index map over -1..3 of grids 2x2x1, 3x1x1, 1x2x2 (thorough: all orientations of the 4-cell grids and 5x1x1) x every "
                 "two-environment map: validity by the documented rules; for valid maps conservation of volume and amounts, "
                 "environments, chemostat OR, edge soundness / completeness, un-coarse-graining totals, identity = grid graph "
                 "(TLC); implementation: every emitted case through coarsegrain_system (accept exactly the valid maps; node "
